@@ -13,6 +13,8 @@
 (*   close_ret n res     it returned: "ok" | "timeout" | "raised"           *)
 (*   event src name      the pc / a channel / a received track emitted      *)
 (*   label name phase    the side passed a harness label (not judged)       *)
+(*   app what res        the application created a channel / transceiver    *)
+(*                       (not judged; a created channel is observed later)  *)
 (*   observe final ...   signalingState, iceConnectionState,                *)
 (*                       connectionState, channel readyStates; final = 1:   *)
 (*                       + received tracks, task census, thread census      *)
@@ -69,6 +71,7 @@ TConsume ==
      ELSE LET side == ev.side IN
      CASE ev.op = "close_call" -> UNCHANGED <<closed, chk, snap, fails>>
        [] ev.op = "label" -> UNCHANGED <<closed, chk, snap, fails>>      \* informational: a harness label was passed
+       [] ev.op = "app" -> UNCHANGED <<closed, chk, snap, fails>>        \* informational: createDataChannel / addTransceiver by the application
        [] ev.op = "close_ret" ->
             IF ev.res = "ok"
               THEN /\ closed' = closed \cup {side}
